@@ -274,6 +274,9 @@ def _parse_lambda(lam):
   # works in interactive shells, where getsource would fail. This is the
   # same procedure followed by inspect for non-modules:
   # https://github.com/python/cpython/blob/3.8/Lib/inspect.py#L772
+  # Like inspect, drop the cached lines if the file has changed since (e.g. the
+  # module was edited and reloaded).
+  linecache.checkcache(f)
   lines = linecache.getlines(f, mod.__dict__)
   source = ''.join(lines)
 
